@@ -65,6 +65,14 @@ func (c Cfg) String() string {
 }
 
 func SeedBytes(k int64) []byte {
+	switch k {
+	case -1:
+		return make([]byte, 16) // the all-zero state is a state like any other
+	case -2:
+		return []byte{255, 255, 255, 255, 255, 255, 255, 255, 255, 255, 255, 255, 255, 255, 255, 255}
+	case -3:
+		return []byte{1, 2, 3} // not a valid state encoding: Init ignores the decoding error and keeps the zero state
+	}
 	b := make([]byte, 16)
 	x := uint64(k)*0x9E3779B97F4A7C15 + 0x1234567
 	for i := 0; i < 16; i++ {
